@@ -27,9 +27,10 @@ ASSUMPTIONS = [
     "(bag_network_refuted)",
     "crash-stop as the spec models it (netEnabled := FALSE; no restart)",
 ]
-RULE = ("cases = corpus/C08/*.json (targeted scenarios: stale leader, old-term entry, Raft Figure 8, deposed leader, split vote, commit_regress = new leader with a lower leaderCommit, even_split = 4 servers in two halves, bag reorder; "
+RULE = ("cases = corpus/C08/*.json (targeted scenarios: stale leader, old-term entry, Raft Figure 8, deposed leader, split vote, commit_regress = new leader with a lower leaderCommit, even_split = 4 servers in two halves, stepdown_midfanout, divergent_vote = longer log with older last term, bag reorder; "
         "each FIFO scenario also in wiring mode = over the resources bootstrap/server.go wires), then seeded adaptive random walks over the real generated archetypes: 1-5 servers x 5 archetypes, "
-        "1-3 clients, crashers for a random minority, buffer 2-10, profiles steady/elections/lossy/crash/retry/service/handover (= leader change right after a commit that reached only part of the followers), "
+        "1-3 clients, crashers for a random minority, buffer 2-10, profiles steady/elections/lossy/crash/retry/service/handover (= leader change right after a commit that reached only part of the followers)/stepdown (= an isolated leader "
+        "steps down between two iterations of its AppendEntries fan-out, the fan-out then continues), "
         "every 5th walk has 4 servers and every 5th has 2 (half of them start with both halves holding an election), 100-2000 steps; "
         "the walker picks the next event from the observed Go state, ~5% of the events are chosen to abort (false await). "
         "Non-trivial = the walk saw >= 2 distinct (leader, term) pairs, or a crash, or non-empty queues at >= 2 nodes; distinct by schedule text.")
@@ -165,20 +166,23 @@ def run(ctx):
                     params["wiring"] = True          # shared variables = the resources bootstrap/server.go wires up
                     if ctx.tier != "quick" and k % 6 == 5:
                         params["persist"] = True     # with the persistence wrappers (badger in a scratch directory)
-                profile = rng.choice(sorted(p_ for p_ in W.PROFILES if p_ != "handover"))
+                profile = rng.choice(sorted(p_ for p_ in W.PROFILES if p_ not in ("handover", "stepdown")))
                 nsteps = rng.randint(lo, hi)
                 r = rng.random()
                 prefix = W.scripted_election(params["n"], rng.randint(1, params["n"])) if r < 0.4 else W.scripted_duel(params["n"]) if r < 0.55 else ()
                 if params["n"] % 2 == 0 and rng.random() < 0.5:
                     prefix = W.scripted_split(params["n"])      # both halves hold an election in the same term
-                if k % 5 == 4:
-                    # leader change right after a commit that reached only part of the followers (profile `handover` of the walker)
+                if k % 5 in (4, 0):
+                    # k % 5 == 4: leader change right after a commit that reached only part of the followers (profile `handover` of the walker);
+                    # k % 5 == 0: an isolated leader steps down between two iterations of its AppendEntries fan-out (profile `stepdown`)
                     n_ = rng.choice([3, 3, 5])
                     lead = rng.randint(1, n_)
                     keep = {kk: params[kk] for kk in ("wiring", "persist") if kk in params}
-                    params = dict(W.gen_params(rng, ctx.tier, force_n=n_), crashers=[lead] if rng.random() < 0.6 else [], nc=rng.choice([2, 3]), buf=10, **keep)
-                    profile, prefix = "handover", W.scripted_election(n_, lead)
-                    nsteps = max(nsteps, rng.randint(160, 260))
+                    hand = k % 5 == 4
+                    params = dict(W.gen_params(rng, ctx.tier, force_n=n_), crashers=[lead] if (hand and rng.random() < 0.6) else [],
+                                  nc=rng.choice([2, 3]), buf=10, **keep)
+                    profile, prefix = ("handover" if hand else "stepdown"), W.scripted_election(n_, lead)
+                    nsteps = max(nsteps, rng.randint(160, 260) if hand else rng.randint(250, 400))
                 res = W.walk(h, rng, params, nsteps, profile, prefix=prefix)
                 payload = {"params": params, "events": res.intended, "picks": res.picks, "profile": profile}
                 ctx.add_case(json.dumps(payload, sort_keys=True), res.nontrivial)
